@@ -192,6 +192,13 @@ def run(ctx):
     # ---- R-C02-6 decode before use
     pts = args[3]
     dec = [x for x in walk(pts) if x.tag == 'call' and x[1].endswith('Decompressable::decompress')]
+    # points produced by a lazily applied closure (`proof.li.iter().map(|p| p.decompress().ok_or(..))`): the closure applied to an element
+    seen_ids = {x.id for x in dec}
+    for m in [x for x in walk(pts) if x.tag == 'map']:
+        for x in walk(mk_elem(ctx.eng, m)):
+            if x.tag == 'call' and x[1].endswith('Decompressable::decompress') and x.id not in seen_ids:
+                seen_ids.add(x.id)
+                dec.append(x)
     # look into crate-local helpers too (li_decompressed / ri_decompressed)
     helper_calls = [x for x in walk(pts) if x.tag == 'call' and x[1] in ctx.facts.fn]
     ndec = len(dec)
